@@ -104,6 +104,123 @@ def _check_profile(ctx, f, spec, side):
     return prof
 
 
+def validator_construction(pm, ctx, rule):
+    """The generated validator constructors carry the declared type: every IR
+    constructor parameter is forwarded to the runtime validator of the same
+    name, the Nullable wrap is applied on every return exactly when the type
+    is nullable, and generate_func_call drops a keyword only when its value is
+    None.  Shared by every property that relies on the generated validators
+    (C06, C07, C08)."""
+    irf, bvf = ir_family(pm), bv_family(pm)
+    g = pm.func(PYTYPES + '.generate_validator_constructor')
+    uni = irf.universe() - {'Nullable'}
+    d = defs(g.node)
+    # per-class forwarding
+    for cname in sorted(uni):
+        ic = irf.classes[cname]
+        init = pm.lookup_method(ic, '__init__')
+        params = [p for p in (init.params[1:] if init else [])]
+        if ic.name in ('Struct', 'Union', 'Alias'):
+            continue   # referenced by name, handled by C09
+        # attribute each param is stored in
+        stored = {}
+        if init is not None:
+            for n in own_nodes(init.node):
+                if isinstance(n, ast.Assign) and isinstance(n.value, ast.Name) and \
+                        n.value.id in params and isinstance(n.targets[0], ast.Attribute):
+                    stored[n.value.id] = n.targets[0].attr
+        # the statement(s) assigning v for this class
+        branch = [n for n in own_nodes(g.node)
+                  if isinstance(n, ast.Assign) and unparse(n.targets[0]) == 'v' and
+                  cname in reaching_classes(pm, irf, g, n, 'dt', universe=uni)]
+        if not ctx.check(rule, len(branch) == 1,
+                         '%s handled by exactly one branch' % cname, g.loc,
+                         msg='IR class %s is built by %d branches of '
+                             'generate_validator_constructor' % (cname, len(branch)),
+                         key=rule + '|%s|branch' % cname):
+            continue
+        call = branch[0].value
+        where = '%s:%d' % (g.module.relpath, branch[0].lineno)
+        if not (isinstance(call, ast.Call) and call_name(call) == 'generate_func_call'):
+            ctx.check(rule, not params, '%s built without parameters' % cname, where,
+                      msg='%s has parameters %s but its branch does not call generate_func_call'
+                          % (cname, params), key=rule + '|%s|call' % cname)
+            continue
+        # validator class named
+        target = call.args[0] if call.args else None
+        tname = unparse(target) if target is not None else ''
+        names_cls = ("'bv.%s'" % cname) in tname or ('dt.name' in tname and 'bv.' in tname)
+        ctx.check(rule, names_cls, '%s -> runtime validator bv.%s' % (cname, cname), where,
+                  msg='branch for %s constructs %s' % (cname, tname),
+                  key=rule + '|%s|target' % cname)
+        bvinit = pm.lookup_method(bvf.classes[cname], '__init__') if cname in bvf.classes else None
+        bvparams = bvinit.params[1:] if bvinit else []
+        kw = {}
+        pos = []
+        for k in call.keywords:
+            if k.arg == 'kwargs' and isinstance(k.value, (ast.List, ast.Tuple)):
+                for t in k.value.elts:
+                    if isinstance(t, ast.Tuple) and len(t.elts) == 2:
+                        kw[try_fold(t.elts[0])] = t.elts[1]
+            elif k.arg == 'args' and isinstance(k.value, (ast.List, ast.Tuple)):
+                pos = list(k.value.elts)
+        for i, p in enumerate(params):
+            attr = stored.get(p, p)
+            v = kw.get(p)
+            if v is not None:
+                src = d.resolve(v) if isinstance(v, ast.Name) else v
+                srcs = {unparse(x) for x in ([v, src] + d.all_values(v.id)
+                                             if isinstance(v, ast.Name) else [v])}
+                good = any(('dt.' + attr) in s_ for s_ in srcs) and p in bvparams
+                ctx.check(rule, good, '%s.%s forwarded as keyword %s=dt.%s' % (
+                    cname, p, p, attr), where,
+                    msg='parameter %s of %s is forwarded as %s (runtime accepts %s)' % (
+                        p, cname, sorted(srcs), bvparams), key=rule + '|%s|%s' % (cname, p))
+            else:
+                good = i < len(pos) and ('dt.' + attr) in unparse(pos[i]) and i < len(bvparams)
+                ctx.check(rule, good, '%s.%s forwarded positionally (dt.%s)' % (
+                    cname, p, attr), where,
+                    msg='parameter %s of %s (attribute %s) is not forwarded to bv.%s' % (
+                        p, cname, attr, cname), key=rule + '|%s|%s' % (cname, p))
+        extra = [k for k in kw if k not in params]
+        ctx.check(rule, not extra, '%s: no keyword without a declared parameter' % cname,
+                  where, msg='keywords %s are not parameters of %s' % (extra, cname),
+                  key=rule + '|%s|extra' % cname)
+
+    # Nullable wrap on every return
+    rpaths = [p for p in enumerate_paths(g.node) if p.end == 'return']
+    bad = []
+    for p in rpaths:
+        rv = p.end_node.value
+        nul = [pol for e, pol in p.atoms if isinstance(e, ast.Name) and e.id == 'nullable_dt']
+        wraps = isinstance(rv, ast.Call) and call_name(rv) == 'generate_func_call' and \
+            rv.args and try_fold(rv.args[0]) == 'bv.Nullable'
+        if not nul:
+            bad.append(p.end_node.lineno)
+        elif nul[-1] and not wraps:
+            bad.append(p.end_node.lineno)
+        elif (not nul[-1]) and wraps:
+            bad.append(p.end_node.lineno)
+    ctx.check(rule, not bad and len(rpaths) >= 2,
+              'every return of generate_validator_constructor is decided by nullable_dt and wraps '
+              'in bv.Nullable exactly when it is set (%d return paths)' % len(rpaths), g.loc,
+              msg='a return of generate_validator_constructor (line %s) bypasses the Nullable wrap'
+                  % sorted(set(bad)), key=rule + '|%s|nullable-wrap' % g.qualname)
+    # generate_func_call drops a keyword only for None
+    gfc = pm.func(PYTYPES + '.generate_func_call')
+    filt = []
+    for n in own_nodes(gfc.node, include_nested=True):
+        if isinstance(n, ast.comprehension) and 'kwargs' in unparse(n.iter):
+            filt.extend(n.ifs)
+    good = len(filt) == 1 and isinstance(filt[0], ast.Compare) and \
+        isinstance(filt[0].ops[0], ast.IsNot) and \
+        isinstance(filt[0].comparators[0], ast.Constant) and filt[0].comparators[0].value is None
+    ctx.check(rule, good, 'generate_func_call omits a keyword only when its value is None',
+              gfc.loc, msg='generate_func_call filters keywords with %s: a bound of 0 or an empty '
+                           'pattern would be dropped' % [unparse(x) for x in filt],
+              key=rule + '|%s|filter' % gfc.qualname)
+
+
 def run(pm, ctx):
     ctx.rule('C08-R1', 'compiler-side and runtime range constants of sized types are equal')
     ctx.rule('C08-R2', 'constraint profiles: every bound parameter is enforced, on the right '
@@ -260,110 +377,7 @@ def run(pm, ctx):
               msg='generate_validator_constructor no longer unwraps Nullable before dispatching',
               key='C08-R4|%s|unwrap' % g.qualname)
 
-    # per-class forwarding
-    for cname in sorted(uni):
-        ic = irf.classes[cname]
-        init = pm.lookup_method(ic, '__init__')
-        params = [p for p in (init.params[1:] if init else [])]
-        if ic.name in ('Struct', 'Union', 'Alias'):
-            continue   # referenced by name, handled by C09
-        # attribute each param is stored in
-        stored = {}
-        if init is not None:
-            for n in own_nodes(init.node):
-                if isinstance(n, ast.Assign) and isinstance(n.value, ast.Name) and \
-                        n.value.id in params and isinstance(n.targets[0], ast.Attribute):
-                    stored[n.value.id] = n.targets[0].attr
-        # the statement(s) assigning v for this class
-        branch = [n for n in own_nodes(g.node)
-                  if isinstance(n, ast.Assign) and unparse(n.targets[0]) == 'v' and
-                  cname in reaching_classes(pm, irf, g, n, 'dt', universe=uni)]
-        if not ctx.check('C08-R3', len(branch) == 1,
-                         '%s handled by exactly one branch' % cname, g.loc,
-                         msg='IR class %s is built by %d branches of '
-                             'generate_validator_constructor' % (cname, len(branch)),
-                         key='C08-R3|%s|branch' % cname):
-            continue
-        call = branch[0].value
-        where = '%s:%d' % (g.module.relpath, branch[0].lineno)
-        if not (isinstance(call, ast.Call) and call_name(call) == 'generate_func_call'):
-            ctx.check('C08-R3', not params, '%s built without parameters' % cname, where,
-                      msg='%s has parameters %s but its branch does not call generate_func_call'
-                          % (cname, params), key='C08-R3|%s|call' % cname)
-            continue
-        # validator class named
-        target = call.args[0] if call.args else None
-        tname = unparse(target) if target is not None else ''
-        names_cls = ("'bv.%s'" % cname) in tname or ('dt.name' in tname and 'bv.' in tname)
-        ctx.check('C08-R3', names_cls, '%s -> runtime validator bv.%s' % (cname, cname), where,
-                  msg='branch for %s constructs %s' % (cname, tname),
-                  key='C08-R3|%s|target' % cname)
-        bvinit = pm.lookup_method(bvf.classes[cname], '__init__') if cname in bvf.classes else None
-        bvparams = bvinit.params[1:] if bvinit else []
-        kw = {}
-        pos = []
-        for k in call.keywords:
-            if k.arg == 'kwargs' and isinstance(k.value, (ast.List, ast.Tuple)):
-                for t in k.value.elts:
-                    if isinstance(t, ast.Tuple) and len(t.elts) == 2:
-                        kw[try_fold(t.elts[0])] = t.elts[1]
-            elif k.arg == 'args' and isinstance(k.value, (ast.List, ast.Tuple)):
-                pos = list(k.value.elts)
-        for i, p in enumerate(params):
-            attr = stored.get(p, p)
-            v = kw.get(p)
-            if v is not None:
-                src = d.resolve(v) if isinstance(v, ast.Name) else v
-                srcs = {unparse(x) for x in ([v, src] + d.all_values(v.id)
-                                             if isinstance(v, ast.Name) else [v])}
-                good = any(('dt.' + attr) in s_ for s_ in srcs) and p in bvparams
-                ctx.check('C08-R3', good, '%s.%s forwarded as keyword %s=dt.%s' % (
-                    cname, p, p, attr), where,
-                    msg='parameter %s of %s is forwarded as %s (runtime accepts %s)' % (
-                        p, cname, sorted(srcs), bvparams), key='C08-R3|%s|%s' % (cname, p))
-            else:
-                good = i < len(pos) and ('dt.' + attr) in unparse(pos[i]) and i < len(bvparams)
-                ctx.check('C08-R3', good, '%s.%s forwarded positionally (dt.%s)' % (
-                    cname, p, attr), where,
-                    msg='parameter %s of %s (attribute %s) is not forwarded to bv.%s' % (
-                        p, cname, attr, cname), key='C08-R3|%s|%s' % (cname, p))
-        extra = [k for k in kw if k not in params]
-        ctx.check('C08-R3', not extra, '%s: no keyword without a declared parameter' % cname,
-                  where, msg='keywords %s are not parameters of %s' % (extra, cname),
-                  key='C08-R3|%s|extra' % cname)
-
-    # Nullable wrap on every return
-    rpaths = [p for p in enumerate_paths(g.node) if p.end == 'return']
-    bad = []
-    for p in rpaths:
-        rv = p.end_node.value
-        nul = [pol for e, pol in p.atoms if isinstance(e, ast.Name) and e.id == 'nullable_dt']
-        wraps = isinstance(rv, ast.Call) and call_name(rv) == 'generate_func_call' and \
-            rv.args and try_fold(rv.args[0]) == 'bv.Nullable'
-        if not nul:
-            bad.append(p.end_node.lineno)
-        elif nul[-1] and not wraps:
-            bad.append(p.end_node.lineno)
-        elif (not nul[-1]) and wraps:
-            bad.append(p.end_node.lineno)
-    ctx.check('C08-R3', not bad and len(rpaths) >= 2,
-              'every return of generate_validator_constructor is decided by nullable_dt and wraps '
-              'in bv.Nullable exactly when it is set (%d return paths)' % len(rpaths), g.loc,
-              msg='a return of generate_validator_constructor (line %s) bypasses the Nullable wrap'
-                  % sorted(set(bad)), key='C08-R3|%s|nullable-wrap' % g.qualname)
-    # generate_func_call drops a keyword only for None
-    gfc = pm.func(PYTYPES + '.generate_func_call')
-    filt = []
-    for n in own_nodes(gfc.node, include_nested=True):
-        if isinstance(n, ast.comprehension) and 'kwargs' in unparse(n.iter):
-            filt.extend(n.ifs)
-    good = len(filt) == 1 and isinstance(filt[0], ast.Compare) and \
-        isinstance(filt[0].ops[0], ast.IsNot) and \
-        isinstance(filt[0].comparators[0], ast.Constant) and filt[0].comparators[0].value is None
-    ctx.check('C08-R3', good, 'generate_func_call omits a keyword only when its value is None',
-              gfc.loc, msg='generate_func_call filters keywords with %s: a bound of 0 or an empty '
-                           'pattern would be dropped' % [unparse(x) for x in filt],
-              key='C08-R3|%s|filter' % gfc.qualname)
+    validator_construction(pm, ctx, 'C08-R3')
 
     # ---------------- R5
     api = [pm.func(BASE + '.Attribute.__set__'), pm.func(BASE + '.Union.__init__')]
